@@ -725,6 +725,21 @@ pub fn replay(def: &'static PropDef, path: &str) -> i32 {
 }
 
 /// Determinism audit: n seeds, each executed twice, at several worker counts.
+/// Print (seed, log hash, outcome) of the first `n` random-phase runs (the other half of the fresh-process audit).
+pub fn audit_dump(def: &'static PropDef, n: usize, seed: u64) -> i32 {
+    let mut co = Coord::new(def, "quick", seed);
+    co.workers = 16;
+    co.quiet = true;
+    let specs: Vec<RunSpec> = (0..n as u64).map(|i| co.spec(i, "random")).collect();
+    let a = co.exec(&specs, false);
+    for (sp, o) in specs.iter().zip(a.iter()) {
+        if let Some(o) = o {
+            println!("DUMP {} {:x} {}", sp.seed, o.log_hash, o.outcome);
+        }
+    }
+    0
+}
+
 pub fn audit(def: &'static PropDef, n: usize, seed: u64) -> i32 {
     let mut bad = 0;
     let mut total = 0;
@@ -740,6 +755,51 @@ pub fn audit(def: &'static PropDef, n: usize, seed: u64) -> i32 {
         bad += co.agg.det_mismatch;
         for h in co.agg.harness.iter().take(5) {
             println!("{h}");
+        }
+    }
+    // the same seeds in a fresh process (different address-space layout, different parent): catches sources the
+    // in-process repeat shares with the first execution (ASLR-derived hash keys, state inherited from the parent)
+    {
+        let mut co = Coord::new(def, "quick", seed);
+        co.workers = 16;
+        co.quiet = true;
+        let specs: Vec<RunSpec> = (0..n as u64).map(|i| co.spec(i, "random")).collect();
+        let a = co.exec(&specs, false);
+        let exe = std::env::current_exe().expect("own path");
+        let out = std::process::Command::new(exe).args(["audit-dump", def.id, &n.to_string()]).env("VERIF_SEED", seed.to_string()).output();
+        match out {
+            Ok(o) => {
+                let text = String::from_utf8_lossy(&o.stdout).to_string();
+                let theirs: std::collections::BTreeMap<u64, (u64, String)> = text
+                    .lines()
+                    .filter_map(|l| {
+                        let mut it = l.split_whitespace();
+                        if it.next()? != "DUMP" {
+                            return None;
+                        }
+                        Some((it.next()?.parse().ok()?, (u64::from_str_radix(it.next()?, 16).ok()?, it.next()?.to_string())))
+                    })
+                    .collect();
+                let mut cross = 0;
+                for (sp, o) in specs.iter().zip(a.iter()) {
+                    if let (Some(o), Some((h, oc))) = (o, theirs.get(&sp.seed)) {
+                        if o.outcome == "hang" || oc == "hang" {
+                            continue;
+                        }
+                        cross += 1;
+                        total += 1;
+                        if o.log_hash != *h || &o.outcome != oc {
+                            bad += 1;
+                            println!("determinism (fresh process): seed {} differs ({:x}/{} vs {:x}/{})", sp.seed, o.log_hash, o.outcome, h, oc);
+                        }
+                    }
+                }
+                println!("AUDIT property={} fresh-process pairs compared={cross}", def.id);
+            }
+            Err(e) => {
+                println!("AUDIT could not start a fresh process: {e}");
+                return 2;
+            }
         }
     }
     println!("AUDIT property={} compared={} mismatches={}", def.id, total, bad);
